@@ -7,6 +7,15 @@ from pySDC.core.errors import ParameterError
 from pySDC.core.level import Level
 
 
+def _full_rhs(f):
+    """
+    Full right hand side for IMEX-split data types (``impl + expl``), any other type is returned unchanged.
+    """
+    if type(f).__name__.lower() in ['imex_mesh', 'imex_cupy_mesh', 'imex_firedrake_mesh']:
+        return f.impl + f.expl
+    return f
+
+
 class ButcherTableau(object):
     def __init__(self, weights, nodes, matrix):
         """
@@ -287,17 +296,17 @@ class RungeKutta(Sweeper):
             if self.is_embedded():
                 self.u_secondary = lvl.prob.dtype_u(lvl.u[0])
                 for w2, k in zip(self.coll.weights[1], lvl.f[1:], strict=True):
-                    self.u_secondary += lvl.dt * w2 * k
+                    self.u_secondary += lvl.dt * w2 * _full_rhs(k)
         else:
             lvl.uend = lvl.prob.dtype_u(lvl.u[0])
             if type(self.coll) == ButcherTableau:
                 for w, k in zip(self.coll.weights, lvl.f[1:], strict=True):
-                    lvl.uend += lvl.dt * w * k
+                    lvl.uend += lvl.dt * w * _full_rhs(k)
             elif self.is_embedded():
                 self.u_secondary = lvl.prob.dtype_u(lvl.u[0])
                 for w1, w2, k in zip(self.coll.weights[0], self.coll.weights[1], lvl.f[1:], strict=True):
-                    lvl.uend += lvl.dt * w1 * k
-                    self.u_secondary += lvl.dt * w2 * k
+                    lvl.uend += lvl.dt * w1 * _full_rhs(k)
+                    self.u_secondary += lvl.dt * w2 * _full_rhs(k)
 
     @property
     def level(self):
